@@ -231,6 +231,7 @@ func checkC07(w *World, r *Report) {
 	checkChainsApplied(w, r)
 	checkEscapeNeverRebound(w, r, escapeFn)
 	checkApplyWritesFilterResult(w, r)
+	checkApplyTagBuildsApplyNode(w, r)
 	checkStringifyIdentityOnStrings(w, r)
 	checkInterpolatorSeesOnlySource(w, r)
 	checkPolicyQuestionsAgree(w, r, "R07.11")
@@ -1047,4 +1048,68 @@ func checkInterpolatorSeesOnlySource(w *World, r *Report) {
 		})
 	}
 	r.Counts["calls of the in-text interpolator"] = n
+}
+
+// checkApplyTagBuildsApplyNode — R07.9: an apply block stays an apply block.  Every successful
+// return of the handler registered for the `apply` tag yields an *ApplyNode: the node is what
+// renders the body to text before the filter sees it.  A handler that rewrites the block into a
+// filtered print hands the filter the value of the expression instead of the text it renders to
+// (a macro call or parent() is a function value, not its output).
+func checkApplyTagBuildsApplyNode(w *World, r *Report) {
+	h := w.tagHandlers()["apply"]
+	if h == nil {
+		cannotDecide("no block handler is registered for the apply tag")
+	}
+	fn := w.ssaFunc(h)
+	n := 0
+	ei := errResultIndex(fn.Signature)
+	instrsOf(fn, func(in ssa.Instruction) {
+		ret, ok := in.(*ssa.Return)
+		if !ok {
+			return
+		}
+		res := retResults(ret)
+		if ei < 0 || ei >= len(res) || !isNilConst(res[ei]) {
+			return
+		}
+		for i, v := range res {
+			if i == ei || !isNamed(v.Type(), twigPath, "Node") {
+				continue
+			}
+			n++
+			other := ""
+			seen := map[ssa.Value]bool{}
+			var walk func(v ssa.Value, d int)
+			walk = func(v ssa.Value, d int) {
+				v = unspill(v)
+				if v == nil || seen[v] || d > 6 {
+					return
+				}
+				seen[v] = true
+				switch x := v.(type) {
+				case *ssa.MakeInterface:
+					if !isNamed(x.X.Type(), twigPath, "ApplyNode") {
+						other = x.X.Type().String()
+					}
+				case *ssa.ChangeInterface:
+					walk(x.X, d+1)
+				case *ssa.Phi:
+					for _, e := range x.Edges {
+						walk(e, d+1)
+					}
+				case *ssa.Const:
+				default:
+					other = describe(v)
+				}
+			}
+			walk(v, 0)
+			construct := "the apply handler returns an ApplyNode"
+			if other == "" {
+				r.ok("R07.9", ssaName(fn), construct, w.posOf(ret.Pos()), "an *ApplyNode on every edge", true)
+			} else {
+				r.bad("R07.9", ssaName(fn), construct, w.posOf(ret.Pos()), "on this path the block becomes "+other+": the filter is applied to something other than the text the body renders to, so `{% apply escape %}` and `|escape` part ways for bodies that render themselves (macro calls, parent())")
+			}
+		}
+	})
+	r.floor("successful returns of the apply handler", n, 1)
 }
